@@ -40,6 +40,7 @@ def run(ctx, rep):
     geometry_rule(f, rep)
     compressed_read_rule(f, rep)
     classification_rule(f, rep, 'C09.6')
+    read_predicate_rule(f, rep, 'C09.12')
     from . import c20
     c20.format_rounding_rule(f, rep, 'C09.7')
     c15.ext_cursor_rule(f, rep, 'C09.8')
@@ -494,3 +495,83 @@ def compressed_read_rule(f, rep, rid='C09.5'):
     if not ok:
         rep.violation(rid, '%s:do_read_compressed:start' % rid, slices[0].where,
                       'the compressed stream is taken from the wrong position of the bounce buffer for some block size: %s' % why)
+
+
+def spec_partitions(cb):
+    """(kind, bits) for every descriptor partition of classification_rule (flag bits concrete, offset bits symbolic)"""
+    out = []
+    for comp in (0, 1):
+        for zero in (0, 1):
+            for copied in (0, 1):
+                for nz in (None, cb, 30, 55):
+                    if comp and nz is None:
+                        continue
+                    if not comp and not zero and nz is None and copied:
+                        continue
+                    bits = ['0'] * 64
+                    bits[0] = str(zero)
+                    bits[62] = str(comp)
+                    bits[63] = str(copied)
+                    if comp:
+                        for i in range(0, 62):
+                            bits[i] = 'e%d' % i
+                        bits[nz] = '1'
+                    elif nz is not None:
+                        for i in range(cb, 56):
+                            bits[i] = 'e%d' % i
+                        bits[nz] = '1'
+                    kind = 'Compressed' if comp else 'Zero' if zero else 'Unallocated/Backing' if nz is None else 'DataFile'
+                    out.append((kind, bits))
+    return out
+
+
+def read_predicate_rule(f, rep, rid):
+    """The read path decides what a guest cluster is through into_mapping (whose classification is C09.6).  Any other
+    boolean method of L2Entry consulted on the read path decides the same thing a second time, on raw bits: it is accepted
+    only if its answer is a function of the specified cluster kind - the same on all descriptors of one kind (bit
+    evaluator over the descriptor partitions of C09.6).  `is_zero()` (bit 0) is not: in a compressed descriptor bit 0 is
+    the lowest bit of the host byte offset."""
+    from ..bitsem import Evaluator, Undecided, C as BC, S as BS, Adt
+    rep.rule(rid, 'a boolean L2Entry method whose result is consulted on the read path (other than into_mapping) gives the same '
+                  'answer on all descriptors of one specified cluster kind (standard / zero / compressed / unallocated)')
+    ev = Evaluator(f)
+    n_into = 0
+    seen = {}
+    for b in f.body_list:
+        if not b.path.startswith('dev::read::') or '::tests::' in b.path:
+            continue
+        for bi, t in b.calls():
+            fn = t.get('fn') or ''
+            if not fn.startswith('meta::l2::L2Entry::'):
+                continue
+            if fn.endswith('::into_mapping'):
+                n_into += 1
+                continue
+            cb_ = f.body(fn)
+            if cb_ is None or f.types[cb_.locals[0]].get('p') != 'bool' or cb_.argc != 1:
+                continue
+            seen.setdefault(fn, []).append((b, bi))
+    rep.floor('into_mapping calls on the read path', n_into, 2)
+    for fn, sites in sorted(seen.items()):
+        answers = {}
+        for cb in (9, 16, 21):
+            for kind, bits in spec_partitions(cb):
+                entry = Adt('meta::l2::L2Entry', 0, [BS(bits)])
+                ev.steps = 0
+                try:
+                    r = ev.call(fn, [entry])
+                except Undecided:
+                    r = None
+                answers.setdefault(kind, set()).add(r.v if isinstance(r, BC) else 'depends on offset bits')
+        mixed = {k: v for k, v in answers.items() if len(v) > 1 or 'depends on offset bits' in v}
+        for b, bi in sites:
+            me = short(b.path)
+            rep.ob(rid, '%s consulted by %s at %s' % (short(fn), me, b.where(bi)), not mixed,
+                   'answers per kind: %s' % {k: sorted(map(str, v)) for k, v in sorted(answers.items())})
+            if mixed:
+                k = sorted(mixed)[0]
+                rep.violation(rid, '%s:%s:%s' % (rid, me, short(fn)), b.where(bi),
+                              '%s decides on L2Entry::%s() on the read path, but that method does not follow the cluster kind: on %s '
+                              'descriptors its answer %s (in a compressed descriptor the low bits belong to the host byte offset). '
+                              'Reads of such clusters take the wrong branch' % (me, short(fn), k,
+                              'depends on offset bits' if 'depends on offset bits' in mixed[k] else 'is both true and false'))
